@@ -7,3 +7,5 @@
 
 pub mod scalars;
 pub mod events;
+#[cfg(any(feature = "garde", feature = "validator"))]
+pub mod pathmap;
